@@ -141,6 +141,19 @@ fn hooks(args: &[String]) -> serde_json::Value {
 fn main() {
     let args: Vec<String> = std::env::args().collect();
     match args.get(1).map(|s| s.as_str()) {
+        // json <file>: load a compiled story document as is (exercises whichever loader this build uses) and play it
+        Some("json") => {
+            let json = std::fs::read_to_string(&args[2]).unwrap();
+            let out = match Story::new(&json) {
+                Ok(mut story) => {
+                    let mut lines = vec![];
+                    while story.can_continue() { match story.cont() { Ok(l) => lines.push(l), Err(e) => { lines.push(format!("ERR {e}")); break; } } }
+                    serde_json::json!({"lines": lines})
+                }
+                Err(e) => serde_json::json!({"load_error": e.to_string()}),
+            };
+            println!("{}", out);
+        }
         Some("ink") => {
             let out = play(&args[2], &args[3..]);
             println!("{}", out);
